@@ -1,7 +1,7 @@
 (* C08 - Buffers never exceed capacity; ordered buffers release jobs in discipline order. *)
 From Coq Require Import List ZArith Bool.
-From JSL Require Import Base.Res Base.ListX SM.Types SM.Util SM.Handler SM.Step SM.Middleware SM.Inv SM.Example
-  SMP.Reflect SMP.StepInv SMP.Main SMP.WF SMP.Feasible SMP.Post SMP.StoreEff SMP.Release SM.Events Gen.Kernels Gen.KernelsEq.
+From JSL Require Import Base.Res Base.ListX SM.Types SM.Util SM.Handler SM.Step SM.Middleware SM.Inv SM.Example SM.ExampleShift
+  SMP.Reflect SMP.StepInv SMP.Main SMP.WF SMP.Feasible SMP.Post SMP.StoreEff SMP.Clock SMP.LiftSide SMP.OutputDone SMP.LiftProv SMP.Release SM.Events Gen.Kernels Gen.KernelsEq.
 Import ListNotations.
 
 (* no buffer (standalone, pre/internal/post, AGV) ever holds more jobs than its configured capacity:
@@ -85,3 +85,36 @@ Theorem C08_offered_machine_start_only_for_unordered_pre_buffer :
                  /\ at_release_position j (b_store (m_pre ms)) (bc_type c) = true.
 Proof. intros i x offers m j W. apply offered_start_only_for_unordered_pre_buffer. apply WFS_complete; auto. Qed.
 Print Assumptions C08_offered_machine_start_only_for_unordered_pre_buffer.
+
+(* (a)-(c) composed, over whole runs of every instance: in the micro-log of EVERY decision of EVERY run, every entry satisfies the
+   event clause ev_pre_release with respect to the micro-state before it (the state the decision was taken in, for the first
+   entry; the clock may have been moved in between, the clause does not read it): an IDLE -> SETUP takes the job at the position
+   the pre-buffer's discipline releases - head for FIFO/DUMMY, last for LIFO, any stored job for FLEX. SMP/LiftProv.v records for
+   every log entry the state it was applied in (chainW), SMP/Release.v carries "a pending machine start names the released job"
+   through the batch (machines first, so only other machines act before it). *)
+Theorem C08_machines_take_the_released_job_every_instance :
+  forall (sigma : oracle) (i : inst) (fuel : nat) (x0 : state) (joker0 : Z) (ta : bool) (r : result) (m : mw)
+         (a : Z) (r' : result) (m' : mw) (lg : mlog),
+    inst_nonneg_b i = true ->
+    clock_b x0 = true -> wfs_b i x0 = true -> fresh2_b i x0 = true -> nodep_b x0 = true -> pre_ok_b x0 = true ->
+    reach sigma i fuel x0 joker0 ta r m -> mw_step sigma i fuel r m a = MOk r' m' lg -> chain_release i (r_x r) lg.
+Proof. intros sigma i fuel x0 joker0 ta r m a r' m' lg Hnn. apply run_release_order; auto. Qed.
+Print Assumptions C08_machines_take_the_released_job_every_instance.
+
+(* non-vacuity: an instance with LIFO machine pre-buffers meets the hypotheses, and the micro-log of a decision of one of its
+   runs contains a machine start (created by the simulator from the pre-buffer) *)
+Example C08_release_order_nontrivial :
+  clock_b sh_init0 = true /\ wfs_b sh_inst sh_init0 = true /\ fresh2_b sh_inst sh_init0 = true /\ nodep_b sh_init0 = true
+  /\ pre_ok_b sh_init0 = true
+  /\ exists r m r' m' lg, reach sh_sigma sh_inst 400 sh_init0 3%Z true r m /\ mw_step sh_sigma sh_inst 400 r m 1%Z = MOk r' m' lg
+       /\ existsb (fun e => match tr_new (fst e) with NM MSetup => true | _ => false end) lg = true.
+Proof.
+  repeat (split; [vm_compute; reflexivity|]).
+  destruct (runG sh_sigma sh_inst side2 400 sh_init0 3%Z true [1;1]%Z) as [[r m]|] eqn:E; [|vm_compute in E; discriminate].
+  destruct (mw_step sh_sigma sh_inst 400 r m 1%Z) as [r' m' lg| | |] eqn:E2.
+  - exists r, m, r', m', lg. split; [eapply reachG_reach; eapply runG_reach; exact E|]. split; [exact E2|].
+    vm_compute in E. inversion E; subst. vm_compute in E2. inversion E2; subst. vm_compute. reflexivity.
+  - exfalso. vm_compute in E. inversion E; subst. vm_compute in E2. discriminate.
+  - exfalso. vm_compute in E. inversion E; subst. vm_compute in E2. discriminate.
+  - exfalso. vm_compute in E. inversion E; subst. vm_compute in E2. discriminate.
+Qed.
